@@ -47,8 +47,12 @@ strengthened *in general terms* (a new family, alphabet member, leg or oracle, n
 special case for the seed); after that %d of %d are detected by the quick check of the
 property they break, %d more by the check of another property whose business they really are
 (a defect that only shows between goroutines, or only in the second evaluation of a process,
-is C09's or C08's to report whichever property the agent was given), and %d is correctly not
-reported because it breaks no listed property. The unchanged tree stays silent.
+is C09's or C08's to report whichever property the agent was given), and %d are correctly not
+reported: one breaks no listed property (C12-9, within C04's stated tolerance), the others were
+*neutralised by later repairs* - each needs a route (a panic inside the parser, a typed nil pointer
+reaching an operator) that the `fix:` commits of §7 have closed, so that on the current tree the
+change no longer breaks its property and its own demonstration passes (`outside_claim` in their
+`meta.json` names the repair). The unchanged tree stays silent.
 `tools/seed_all.sh` re-runs the whole table in a scratch mirror (`/tmp/ev`, so /repo and
 /verif/evidence are not touched); patches that touch lines changed by later `fix:` commits
 were re-based (the delivered patch is kept as `patch.orig.diff`).
